@@ -86,10 +86,11 @@ def _enc(sch, t, v, w):
     elif k == "f64":
         w.word(f64_bits(v), 64)
     elif k == "str":
-        w.mark("str", len(v))
-        w.word(len(v), 32)
-        for c in v:
-            w.word(ord(c), 8)
+        raw = v.encode("utf-8")  # 7-bit ASCII strings are their own UTF-8 encoding
+        w.mark("str", len(raw))
+        w.word(len(raw), 32)
+        for c in raw:
+            w.word(c, 8)
     elif k == "enum":
         w.word(v, sch.enum_width(t[1]))
     elif k == "struct":
@@ -127,7 +128,11 @@ def dec(sch, t, r):
         n = r.word(32)
         if r.p + 8 * n > r.total:
             raise Truncated("string of %d bytes" % n)
-        return "".join(chr(r.word(8)) for _ in range(n))
+        raw = bytes(r.word(8) for _ in range(n))
+        try:
+            return raw.decode("utf-8")
+        except UnicodeDecodeError:
+            return raw.decode("latin-1")  # not text: the caller compares, a real decoder may refuse
     if k == "enum":
         return r.word(sch.enum_width(t[1]))
     if k == "struct":
